@@ -66,6 +66,10 @@ def gpsGalileoBeidou (b : List GnssBlock) : List GnssBlock :=
 /-- `set_rate_in_hz(rate)` → (measRate, navRate); `int(1000 / rate)` -/
 def setRateInHz (rate : Nat) : Nat × Nat := (1000 / rate, 1)
 
+/-- the same for a rate that is no whole number - `num/den` Hz given as a float with an exact binary value, a `Fraction`, a
+    `Decimal`: `int(1000 / rate)` truncates the quotient -/
+def setRateQ (num den : Nat) : Nat × Nat := (1000 * den / num, 1)
+
 /-- `UbxCfgCfgAction.save(settings)` / `reset(settings)` → (clearMask, saveMask, loadMask) -/
 def cfgSave (settings : Nat) : Nat × Nat × Nat := (0, settings, 0)
 def cfgReset (settings : Nat) : Nat × Nat × Nat := (settings, 0, settings)
